@@ -25,6 +25,8 @@ THEOREMS = [
     'Nb.C16.tck_roundtrip',
     'Nb.C16.name_codec_roundtrip',
     'Nb.C16.trk_records_roundtrip',
+    'Nb.C16.trk_name_table_roundtrip',
+    'Nb.C16.trk_columns_roundtrip',
     'Nb.C16.trackvis_affine_invertible',
     'Nb.C16.position_invariant',
     'Nb.C16.position_restored',
